@@ -1327,7 +1327,7 @@ KNOWN_CLASS = {"F4": (M_DRAINLEFT, "F4_witness.cases"), "F5": (M_PREPHELD, "F5_w
 PINS = {
     "C01": ["C01_exactly_once_fifo", "F4_refuted"], "C02": ["C02_fifo_lifecycle", "C02_order_gating_partial"], "C03": ["C03_terminates_once", "C03_dropped_cause_issued", "C03_terminates_once_checked", "C03_decomposition", "C03_lifecycle", "C03_cause", "C03_once_partial"],
     "C04": ["C04_last_owner_dropped", "C04_slab_len", "C04_notify_check", "C04_runret_check", "C04_slab_children_terminate", "C04_runret_split", "C04_drop_takes_queue_place", "C04_never_dropped_while_owned", "C04_never_dropped_while_owned_chk", "C04_last_owner_terminates", "C04_owner_census", "C04_monitor_split", "C04_owner_count_partial"], "C05": ["C05_as_checked", "C05_ret_exactly_once", "C05_calls_not_lost", "C05_ret_exactly_once_checked", "C05_ret_once_partial"], "C06": ["C06_quiescence_lazy_idle", "C06_plain_any_deferrer"],
-    "C15": ["C15_time"], "C16": ["C16_of_no_leak", "C16_released_once_partial", "C16_released_once_rest", "C16_decomposition", "C16_no_uaf", "C16_flags_no_leak_part", "C16_flags_of_no_leak", "C16_heap_partial"], "C20": ["C20_open_close_filter", "C20_filter_table"],
+    "C15": ["C15_time"], "C16": ["C16_of_no_leak", "C16_released_once_partial", "C16_released_once_rest", "C16_decomposition", "C16_no_uaf", "C16_flags_no_leak_part", "C16_flags_of_no_leak", "C16_heap_partial", "C16_exec_final", "C16_final_state", "C16_leak_located", "C16_no_container_leak_settled", "C16_no_leak_settled"], "C20": ["C20_open_close_filter", "C20_filter_table"],
 }
 PROOF_FILES = ["R/Syntax.v", "R/Rt.v", "R/Mon.v"]
 
@@ -1349,8 +1349,8 @@ CLAIM = {
                 missing=""),
     "C05": dict(partial=False, proved="C05_as_checked: forall p fuel t, exec DGlobal fuel p = Done t -> NoDup (ret_ids t) -> no_container_leak t -> C05_ok t && C05_calls_ok t = true; C05_ret_exactly_once: the first conjunct for either deferrer (every Ret created once and invoked exactly once, with the value sent or None where it is dropped); C05_calls_not_lost: the second conjunct without hypotheses (DGlobal). The two hypotheses are decidable on the trace (distinct Ret ids; no leaked closure / actor value / notifier) and cannot be dropped: F5, F7, a self-reference cycle and the inline-deferrer leftover are refuted at model level (C05_*_model)",
                 missing=""),
-    "C16": dict(partial=True, proved="C16_of_no_leak: forall d p fuel t, exec d fuel p = Done t -> (forall k i, ~ In (ELeak k i) t) -> C16_ok t = true (hypothesis decidable on the trace; necessary: C16_leak_refuted, finding F5); from C16_decomposition (C16_ok = C16_flags_ok && C16_once_ok K && C16_once_ok (not K)), C16_released_once_partial (closure instances, actor values, user Rets, termination notifiers: consumed only if created before and not consumed yet), C16_released_once_rest (the same for tokens, Fwd closures, orphaned value tokens), C16_no_uaf (no access to an actor cell that is gone - not in the table / already freed - in any run), C16_flags_no_leak_part (the flag check without its leak conjunct holds in every run), C16_flags_of_no_leak; C16_heap_partial: translated MinRc table frees exactly on 1->0, clone/drop round trip, model frees the cell exactly then",
-                missing="the leak conjunct of the flag part as a theorem (no leak report outside the classes of F4/F5/F7, the self-referencing actor and the documented defer-after-drop case; needs the final-configuration argument over the epilogue's flush rounds); machine-level memory safety is sampled under AddressSanitizer (thorough tier)"),
+    "C16": dict(partial=True, proved="C16_of_no_leak: forall d p fuel t, exec d fuel p = Done t -> (forall k i, ~ In (ELeak k i) t) -> C16_ok t = true (hypothesis decidable on the trace; necessary: C16_leak_refuted, finding F5); from C16_decomposition (C16_ok = C16_flags_ok && C16_once_ok K && C16_once_ok (not K)), C16_released_once_partial (closure instances, actor values, user Rets, termination notifiers: consumed only if created before and not consumed yet), C16_released_once_rest (the same for tokens, Fwd closures, orphaned value tokens), C16_no_uaf (no access to an actor cell that is gone - not in the table / already freed - in any run), C16_flags_no_leak_part (the flag check without its leak conjunct holds in every run), C16_flags_of_no_leak; C16_heap_partial: translated MinRc table frees exactly on 1->0, clone/drop round trip, model frees the cell exactly then; leak conjunct, final-configuration argument: C16_exec_final + C16_final_state (the configuration in which the leak report is computed, both deferrer kinds: no Stakker alive, environment / frames / lazy / idle / timers empty, closure instances left in the main queue were parked after the last Core::new), C16_leak_located (global deferrer, exact census: a reported leak of a closure instance / user Ret / notifier / actor value is an object of that main queue or of an actor cell still in the table), C16_no_container_leak_settled (exec DGlobal fuel p = Done t -> settled t = true -> no_actor t = true -> no ELeak of these four kinds), C16_no_leak_settled (... -> simple16 t = true -> C16_ok t = true); Examples C16_no_leak_example (non-vacuity), C16_epilogue_depth (a program without any actor leaks a parked closure: the hypothesis settled is necessary)",
+                missing="the leak conjunct for runs WITH actors (no leak report outside the classes of F4/F5/F7/F8, the self-referencing actor and the documented defer-after-drop case): needs the reference census of LinRef*.v as an equality (every cell without a surviving reference cycle is freed by the end of the epilogue) and an exact token / Fwd-object census; a syntactic (program-text) form of the hypotheses settled / no_actor; machine-level memory safety is sampled under AddressSanitizer (thorough tier)"),
     "C20": dict(partial=False, proved="C20_open_close_filter: forall d p fuel t, exec d fuel p = Done t -> Z.of_nat (length t) < 2^64-1 -> C20_ok (observable t) = true (observable = the trace without the model-only '~' events; bound: LogIDs are u64 counters); C20_filter_table (9x9 table of the translated From<LogLevel>/allows)",
                 missing=""),
 }
